@@ -147,6 +147,13 @@ def Ser.childStep (s : Ser) : Ser :=
   | some ⟨op :: rest, ok⟩ => { s with fs := s.fs.apply op, child := some ⟨rest, ok⟩ }
   | _ => s
 
+/-- the fork child is killed (signal) or exits with a non-zero status before finishing: it performs nothing more,
+and `waitpid` will report a non-zero wait status -/
+def Ser.childKill (s : Ser) : Ser :=
+  match s.child with
+  | some ⟨_ :: _, _⟩ => { s with child := some ⟨[], false⟩ }
+  | _ => s
+
 /-- `checkSerializing()`; `checker` = result of the user's `serializeChecker` when one is configured -/
 def Ser.checkSerializing (s : Ser) (checker : Option Status) : Ser × Status × Option Nat :=
   match checker with
